@@ -268,11 +268,13 @@ PLANS['C18'] = Plan(
 )
 
 PLANS['C19'] = Plan(
-    'C19', ['src/diagnostic/alignment_comparer.py::AlignmentRowComparer.__getCoverage', 'src/diagnostic/alignment_comparer.py::AlignmentComparison.create'], 'other',
+    'C19', ['src/diagnostic/alignment_comparer.py::AlignmentRowComparer.__getCoverage', 'src/diagnostic/alignment_comparer.py::AlignmentComparison.create',
+            'src/diagnostic/alignment_comparer.py::AlignmentRowComparer.compare'], 'other',
     "Deductive part: AlignmentRowComparer.__getCoverage lies in [0,1], is 1 for an empty list or no exclusive pairs, and equals (n-d)/n (no division by zero); "
     "AlignmentComparison.create: overlapping + nonOverlapping + firstOnly + secondOnly = number of comparison rows, every row falling in exactly one of the four "
     "classes (base and step of the induction over the rows discharged; induction schema applied at the meta level; needs identity 0 on rows present in one set "
-    "only). "
+    "only); AlignmentRowComparer.compare: which list goes into which measure - each coverage is computed from its OWN combined pair list and its own exclusive "
+    "pairs, identity from the two combined lists, all three measures in [0,1] (set difference, source combination and difflib ratio as assumed contracts). "
     "BOUNDED: AlignmentComparer.compare / AlignmentRowComparer.compare use dict, set and difflib.SequenceMatcher, outside the verifier: all pairs of small "
     "alignment sets (with duplicated keys, empty and duplicated-label pair lists), both settings of combineMultipleQuerySources: key partition, set "
     "differences, measures in [0,1], reflexivity, swap symmetry.",
